@@ -15,8 +15,8 @@ RULE = ("random perfect-recall trees x candidate named strategies = a valid one 
         "unnormalised weights); from_named vs from_named_eq vs model; an independent Python oracle written from the property "
         "text decides expected success / admissible error kinds / normalised result; non-trivial = at least one mutation "
         "applied or weights unnormalised; distinct by (tree, candidate) hash")
-ASSUMPTIONS = ["weights are capped at 1e300/arity on the pass/fail path: totals that overflow binary64 normalise to zeros "
-               "(binary64-range class, DESIGN 9)"]
+ASSUMPTIONS = ["weights range over the whole finite binary64 range incl. infosets whose total overflows (repaired D17: such "
+               "rows are rescaled by their maximum first); subnormal quotients are compared with absolute tolerance"]
 WEIRD = [-1.0, -0.0, 0.0, 5e-324, 1e-300, 1.0, 1e300, float("nan"), float("inf"), float("-inf")]
 
 
@@ -30,7 +30,7 @@ def mutate(rng, t, named):
         ents = named[pl]
         kind = rng.choice(["dup_entry", "dup_infoset", "drop", "unknown", "other_player", "bad_action",
                            "bad_single_action", "weird_weight", "zero_infoset", "empty_actions", "reorder", "tiny_infoset",
-                           "tiny_infoset"])
+                           "tiny_infoset", "huge_infoset"])
         if kind == "reorder":
             rng.shuffle(ents)
         elif kind == "dup_entry" and ents:
@@ -70,6 +70,15 @@ def mutate(rng, t, named):
             k = rng.choice([2.0 ** -60, 1e-20, 1e-150, 1e-300, 2.0 ** -1060])
             for ap in e[1]:
                 ap[1] = f2b(b2f(ap[1]) * k)
+        elif kind == "huge_infoset" and ents:
+            # every weight of one infoset at the top of the binary64 range (finite): the total may overflow,
+            # the result must be weight / total all the same (D17)
+            e = rng.choice(ents)
+            k = rng.choice([2.0 ** 1023, 2.0 ** 1022, 1.7e308, 1e300])
+            for ap in e[1]:
+                w = b2f(ap[1])
+                if 0.0 < w <= 1.0:
+                    ap[1] = f2b(w * k)
         elif kind == "empty_actions" and ents:
             rng.choice(ents)[1] = []
         else:
@@ -150,7 +159,7 @@ def generate(rng, tier, n):
 
 
 def corpus():
-    """dedicated probe of the known finding: finite weights whose total overflows binary64"""
+    """regression input of the repaired D17: finite weights whose total overflows binary64"""
     t = {"p": 1, "i": 7, "a": [[1, {"t": f2b(1.0)}], [2, {"t": f2b(-1.0)}]]}
     big = 2.0 ** 1023
     cand = [[[7, [[1, f2b(big)], [2, f2b(big)]]]], []]
@@ -167,13 +176,6 @@ def _overflows(cand):
 
 
 def monitor(cb, impl):
-    hits = _monitor(cb, impl)
-    if hits and _overflows(cb.meta["cand"]):
-        return [(t, "f64-overflow-total") for t, _ in hits]
-    return hits
-
-
-def _monitor(cb, impl):
     hits = []
     if "ops" not in impl:
         return hits
